@@ -48,4 +48,41 @@ PROPS = {
         "must_observe": ["events", "progress_updates_observed"],
         "assumptions": SIM_ASSUME,
     },
+    "C02": {
+        "stages": [sim(25, 480)],
+        "rule": "histories of 3-12 operations over generated projects (2-10 steps, discovered deps, restat-like and non-writing commands): edit/touch/delete sources, delete/touch/overwrite outputs, change command text or rspfile content, add/remove steps and edges, change a command's include set (with an edit of a file it reads), builds of random target subsets with random -j/-k/completion policy and failing commands; after every successful invocation the content of every output in the closure of the requested targets is compared with the reference model's clean-build content, and the started set must contain the model's dirty set; non-trivial = history with >= 2 builds and an edit in between that dirties a strict non-empty subset of the wanted steps; distinct by hash(operations, event sequences)",
+        "must_observe": ["events", "outputs_compared"],
+        "assumptions": SIM_ASSUME + ["a content change comes with an mtime change (the harness's logical clock), nothing writes the tree during an invocation, phony outputs are never dirtying inputs"],
+    },
+    "C03": {
+        "stages": [sim(25, 480)],
+        "rule": "C02's histories restricted to projects in which every declared input and output exists after a build (effects: write, write-if-changed, touch-own-input), plus an immediate no-edit rebuild after successful builds and `-t restat` (adopt) episodes; the started set of every invocation must equal the reference model's prediction exactly (manifest dirty rule written from the property statement); non-trivial as C02",
+        "must_observe": ["events", "noop_rebuilds_checked", "restat_episodes"],
+        "assumptions": SIM_ASSUME,
+    },
+    "C07": {
+        "level": "fault_enumeration",
+        "stages": [sim(30, 480)],
+        "rule": "for generated histories (0-2 complete builds with edits, then a build that is abandoned): every db write of that build x every byte count 0..len that reaches the file (quick: all counts for records <= 12 bytes, first/last 4 and a third of the middle counts for longer ones; thorough: all), fault injected at the hook in front of every append; then a fault-free build (must load the log, run exactly the model's prediction with the record store = completely written records, and what n2 loaded per step must equal what an independent reader of the file finds), the log must then be a well-formed file, and a third build must be a no-op; non-trivial = crash strictly inside a record; distinct by (graph shape, write index, byte count)",
+        "must_observe": ["crash_points", "crash_points_mid_record"],
+        "assumptions": SIM_ASSUME + ["crash model: a byte prefix of what n2 appends reaches the file (no reordering/loss of earlier writes)"],
+    },
+    "C08": {
+        "stages": [sim(25, 420)],
+        "rule": "(a) record shapes: 1-40 outputs x 0-1000 discovered deps (65535/65536/65537/70000 in one case per quick run, 1 in 6 shape cases in thorough) x names of 1-3900 bytes incl. non-ASCII: build, reload (what n2 loads per step must equal what an independent reader of .n2_db finds for the latest applicable record), no-op rebuild, touch one dep, rebuild; (b,c) histories of semantics-preserving manifest rewrites (statement reordering, unrelated statements, rule renaming, command via variables, include split, path respelling) which must cause no run, and output moves / output-set changes after which old records must be unusable, judged by exact run-set comparison with the reference model; non-trivial = a rewrite/move history with a partial rebuild, or a record with >= 255 deps / >= 7 outputs / names >= 255 bytes",
+        "must_observe": ["events", "shape_cases", "noop_rebuilds_checked"],
+        "assumptions": SIM_ASSUME,
+    },
+    "C09": {
+        "stages": [sim(25, 420)],
+        "rule": "histories in which a command's reported dependency set grows, shrinks, overlaps declared and order-only inputs, repeats under several spellings (./x, a/../x, x), names missing files, with header edits/deletions in between; exact run-set comparison with the reference model (dep set = canonicalised, de-duplicated, minus declared dirtying inputs; replaced wholesale on success), recorded dep lists decoded from the log writes and compared, clean-build content comparison; non-trivial as C02",
+        "must_observe": ["events", "noop_rebuilds_checked"],
+        "assumptions": SIM_ASSUME + ["E1 hands the reported list to n2 directly; depfile/showIncludes parsing is covered by C15 and the pure stage"],
+    },
+    "C17": {
+        "stages": [sim(25, 420)],
+        "rule": "projects whose manifest is the output of a generator step with 1-3 future generations (changed commands, added/removed steps, rewired inputs); histories of generator-input edits, source/output edits, builds of random targets, failing generator; per phase the started set must equal the model's prediction for the old (phase 1) and new (phase 2) generation, a reload must happen iff a command ran in phase 1, the graph loaded after the reload must be the new text, and nothing may run after a failed regeneration; non-trivial = invocation with a reload",
+        "must_observe": ["events", "invocations_with_reload"],
+        "assumptions": SIM_ASSUME + ["a manifest named as a target is treated as built in phase 1 (n2's documented design); its closure is not re-examined against the new text"],
+    },
 }
